@@ -1,0 +1,291 @@
+//!
+//! Verification hooks (only compiled with the `verif-hooks` cargo feature, which is off by default)
+//!
+//! This module never changes what the crate does. It provides:
+//!
+//!  * a process-global hook slot: when a hook function is installed it is called at every
+//!    *point* (before/after lock, before/after unlock, around condvar waits and notifies, around
+//!    thread parking, at pool thread spawn/exit and at a few explicit places). A monitor uses this
+//!    to inject delays between critical sections and to record which sites were reached.
+//!  * `sync::{Mutex, MutexGuard, Condvar}`: thin wrappers that delegate to the real `std::sync`
+//!    primitives and report the points above, labelled with the caller's source location.
+//!  * an exact counter of live scheduler pool threads.
+//!
+//! With no hook installed, a point is one relaxed atomic load and a branch.
+//!
+
+use std::panic::Location;
+use std::sync::atomic::{AtomicUsize, Ordering};
+
+///
+/// The kind of point being reported to the hook
+///
+#[derive(Clone, Copy, PartialEq, Eq, Debug, Hash)]
+#[repr(u8)]
+pub enum PointKind {
+    BeforeLock      = 0,
+    AfterLock       = 1,
+    BeforeUnlock    = 2,
+    AfterUnlock     = 3,
+    TryLockFailed   = 4,
+    BeforeWait      = 5,
+    AfterWait       = 6,
+    BeforeNotify    = 7,
+    AfterNotify     = 8,
+    BeforePark      = 9,
+    AfterPark       = 10,
+    BeforeUnpark    = 11,
+    Explicit        = 12,
+    PoolThreadSpawn = 13,
+    PoolThreadExit  = 14,
+}
+
+/// Number of distinct point kinds
+pub const POINT_KINDS: usize = 15;
+
+/// Signature of a hook function
+pub type Hook = fn(PointKind, &'static Location<'static>);
+
+static HOOK: AtomicUsize            = AtomicUsize::new(0);
+static POOL_THREADS: AtomicUsize    = AtomicUsize::new(0);
+static POOL_SPAWNS: AtomicUsize     = AtomicUsize::new(0);
+
+///
+/// Installs (or with `None`, removes) the process-global hook function
+///
+pub fn set_hook(hook: Option<Hook>) {
+    let value = match hook { Some(hook) => hook as usize, None => 0 };
+    HOOK.store(value, Ordering::SeqCst);
+}
+
+///
+/// Reports a point to the hook, if one is installed
+///
+#[inline]
+pub fn point(kind: PointKind, location: &'static Location<'static>) {
+    let hook = HOOK.load(Ordering::Relaxed);
+    if hook != 0 {
+        // Safe: the only values ever stored are 0 and valid `Hook` function pointers
+        let hook: Hook = unsafe { std::mem::transmute::<usize, Hook>(hook) };
+        hook(kind, location);
+    }
+}
+
+///
+/// Reports an explicit point at the caller's location
+///
+#[inline]
+#[track_caller]
+pub fn point_here() {
+    point(PointKind::Explicit, Location::caller());
+}
+
+///
+/// Reports a point of the given kind at the caller's location
+///
+#[inline]
+#[track_caller]
+pub fn point_kind_here(kind: PointKind) {
+    point(kind, Location::caller());
+}
+
+///
+/// The number of scheduler pool threads that are currently alive (spawned and not yet exited)
+///
+pub fn live_pool_threads() -> usize {
+    POOL_THREADS.load(Ordering::SeqCst)
+}
+
+///
+/// The number of scheduler pool threads ever spawned by this process
+///
+pub fn total_pool_spawns() -> usize {
+    POOL_SPAWNS.load(Ordering::SeqCst)
+}
+
+///
+/// Called by the thread that is about to spawn a pool thread
+///
+#[track_caller]
+pub fn pool_thread_spawning() {
+    POOL_THREADS.fetch_add(1, Ordering::SeqCst);
+    POOL_SPAWNS.fetch_add(1, Ordering::SeqCst);
+    point(PointKind::PoolThreadSpawn, Location::caller());
+}
+
+///
+/// Lives on the stack of a pool thread; reports the exit of that thread when dropped (also while unwinding)
+///
+pub struct PoolThreadGuard(&'static Location<'static>);
+
+impl PoolThreadGuard {
+    #[track_caller]
+    pub fn new() -> PoolThreadGuard {
+        PoolThreadGuard(Location::caller())
+    }
+}
+
+impl Drop for PoolThreadGuard {
+    fn drop(&mut self) {
+        POOL_THREADS.fetch_sub(1, Ordering::SeqCst);
+        point(PointKind::PoolThreadExit, self.0);
+    }
+}
+
+///
+/// Replacement for the parts of `std::sync` that the crate imports with `use std::sync::*`
+///
+pub mod sync {
+    use super::{point, PointKind};
+
+    use std::fmt;
+    use std::ops::{Deref, DerefMut};
+    use std::panic::Location;
+
+    pub use std::sync::{Arc, Weak};
+
+    ///
+    /// Error returned when the underlying mutex was poisoned (as with std, the lock is released again)
+    ///
+    #[derive(Debug)]
+    pub struct Poisoned;
+
+    ///
+    /// Error returned by `try_lock`
+    ///
+    #[derive(Debug)]
+    pub enum TryLockFailed { Poisoned, WouldBlock }
+
+    ///
+    /// A `std::sync::Mutex` that reports its lock/unlock points
+    ///
+    pub struct Mutex<T>(std::sync::Mutex<T>);
+
+    ///
+    /// Guard for the reporting mutex
+    ///
+    pub struct MutexGuard<'a, T> {
+        guard:      Option<std::sync::MutexGuard<'a, T>>,
+        location:   &'static Location<'static>
+    }
+
+    impl<T> Mutex<T> {
+        pub fn new(value: T) -> Mutex<T> {
+            Mutex(std::sync::Mutex::new(value))
+        }
+
+        #[track_caller]
+        pub fn lock(&self) -> Result<MutexGuard<'_, T>, Poisoned> {
+            let location = Location::caller();
+
+            point(PointKind::BeforeLock, location);
+            let result = match self.0.lock() {
+                Ok(guard)   => Ok(MutexGuard { guard: Some(guard), location }),
+                Err(_)      => Err(Poisoned)
+            };
+            point(PointKind::AfterLock, location);
+
+            result
+        }
+
+        #[track_caller]
+        pub fn try_lock(&self) -> Result<MutexGuard<'_, T>, TryLockFailed> {
+            let location = Location::caller();
+
+            point(PointKind::BeforeLock, location);
+            match self.0.try_lock() {
+                Ok(guard) => {
+                    point(PointKind::AfterLock, location);
+                    Ok(MutexGuard { guard: Some(guard), location })
+                }
+
+                Err(std::sync::TryLockError::WouldBlock) => {
+                    point(PointKind::TryLockFailed, location);
+                    Err(TryLockFailed::WouldBlock)
+                }
+
+                Err(std::sync::TryLockError::Poisoned(_)) => {
+                    point(PointKind::TryLockFailed, location);
+                    Err(TryLockFailed::Poisoned)
+                }
+            }
+        }
+    }
+
+    impl<T: fmt::Debug> fmt::Debug for Mutex<T> {
+        fn fmt(&self, fmt: &mut fmt::Formatter) -> fmt::Result {
+            self.0.fmt(fmt)
+        }
+    }
+
+    impl<'a, T> Deref for MutexGuard<'a, T> {
+        type Target = T;
+
+        #[inline]
+        fn deref(&self) -> &T {
+            self.guard.as_ref().expect("guard is present until dropped")
+        }
+    }
+
+    impl<'a, T> DerefMut for MutexGuard<'a, T> {
+        #[inline]
+        fn deref_mut(&mut self) -> &mut T {
+            self.guard.as_mut().expect("guard is present until dropped")
+        }
+    }
+
+    impl<'a, T> Drop for MutexGuard<'a, T> {
+        fn drop(&mut self) {
+            if let Some(guard) = self.guard.take() {
+                point(PointKind::BeforeUnlock, self.location);
+                std::mem::drop(guard);
+                point(PointKind::AfterUnlock, self.location);
+            }
+        }
+    }
+
+    ///
+    /// A `std::sync::Condvar` that reports its wait/notify points
+    ///
+    pub struct Condvar(std::sync::Condvar);
+
+    impl Condvar {
+        pub fn new() -> Condvar {
+            Condvar(std::sync::Condvar::new())
+        }
+
+        #[track_caller]
+        pub fn wait<'a, T>(&self, mut guard: MutexGuard<'a, T>) -> Result<MutexGuard<'a, T>, Poisoned> {
+            let location    = Location::caller();
+            let lock_site   = guard.location;
+            let std_guard   = guard.guard.take().expect("guard is present until dropped");
+
+            point(PointKind::BeforeWait, location);
+            let result = match self.0.wait(std_guard) {
+                Ok(std_guard)   => Ok(MutexGuard { guard: Some(std_guard), location: lock_site }),
+                Err(_)          => Err(Poisoned)
+            };
+            point(PointKind::AfterWait, location);
+
+            result
+        }
+
+        #[track_caller]
+        pub fn notify_one(&self) {
+            let location = Location::caller();
+
+            point(PointKind::BeforeNotify, location);
+            self.0.notify_one();
+            point(PointKind::AfterNotify, location);
+        }
+
+        #[track_caller]
+        pub fn notify_all(&self) {
+            let location = Location::caller();
+
+            point(PointKind::BeforeNotify, location);
+            self.0.notify_all();
+            point(PointKind::AfterNotify, location);
+        }
+    }
+}
